@@ -91,13 +91,16 @@ fn siblings() -> Vec<(String, String)> {
     v
 }
 
-const CONTENTS: [Content; 5] = [
+const CONTENTS: [Content; 6] = [
     Content { src: 0, dest: 0, hash: 0 },
     Content { src: 0, dest: 1, hash: 0 },
     Content { src: 0, dest: 0, hash: 1 },
     Content { src: 1, dest: 0, hash: 0 },
     // destination 2 is a contract, which consumes by calling the gateway itself
     Content { src: 0, dest: 2, hash: 0 },
+    // destination 3 is the account-type address made of the same 32 bytes as destination 0's
+    // contract id: nobody in the alphabet can consume an approval naming it
+    Content { src: 0, dest: 3, hash: 0 },
 ];
 
 /// the two source addresses differ only in letter case
@@ -154,7 +157,17 @@ impl Scenario for C02 {
         let set = SetSpec { signers: vec![(0, 1)], threshold: 1, nonce: 1 };
         let gw = register_gateway(&w, None, &owner, &operator, &DOMAIN, 0, 0, &[set.raw(&keys)]);
         (
-            Ctx { w, gw, keys, set, dests: vec![a, b, k] },
+            {
+                let raw = match w.sc_addr(&a) {
+                    soroban_sdk::xdr::ScAddress::Contract(h) => h.0,
+                    _ => unreachable!(),
+                };
+                let twin = axmc::its::addr_from_sc(
+                    &w,
+                    &soroban_sdk::xdr::ScAddress::Account(soroban_sdk::xdr::AccountId(soroban_sdk::xdr::PublicKey::PublicKeyTypeEd25519(soroban_sdk::xdr::Uint256(raw)))),
+                );
+                Ctx { w, gw, keys, set, dests: vec![a, b, k, twin] }
+            },
             Model { status: vec![Status::NotApproved; self.keys.len()], advances: 0, rotations: 0 },
         )
     }
@@ -429,7 +442,7 @@ fn main() {
         let mut o = Opts::new(tier, if tier == "quick" { 12 } else { 16 });
         o.min_depth = 4;
         o.xcheck = tier == "thorough";
-        o.rule = "all sequences over {approve single x4 contents per key, 4 batches (same-key/different-content, identical twins, two keys, three entries), a signer rotation, validate_message x {3 callers (two principals, one calling contract), 2 source addresses differing only in letter case, 2 payload hashes, authorised or not} per key, advance 20 ledgers (bounded)}; keys 0/1 differ only in where chain ends and id begins, key 2 from key 0 only in letter case and a trailing blank; ids are 40 bytes with every customary separator; 12 never-approved sibling keys (separator shifted into the chain, same 32-byte prefix, same length) must never show a status; from every state without time passing a batch of 100 (quick) / 300 (thorough) fresh messages plus the three keys is approved on a snapshot and every entry checked; explored to fixpoint of the finite status graph; after every new state is_message_approved for all key x content pairs and is_message_executed for all keys are compared with the model".into();
+        o.rule = "all sequences over {approve single x4 contents per key, 4 batches (same-key/different-content, identical twins, two keys, three entries), a signer rotation, validate_message x {3 callers (two principals, one calling contract; a fourth destination, the account-type address made of the first principal's 32 bytes, can be approved for but never consumes), 2 source addresses differing only in letter case, 2 payload hashes, authorised or not} per key, advance 20 ledgers (bounded)}; keys 0/1 differ only in where chain ends and id begins, key 2 from key 0 only in letter case and a trailing blank; ids are 40 bytes with every customary separator; 12 never-approved sibling keys (separator shifted into the chain, same 32-byte prefix, same length) must never show a status; from every state without time passing a batch of 100 (quick) / 300 (thorough) fresh messages plus the three keys is approved on a snapshot and every entry checked; explored to fixpoint of the finite status graph; after every new state is_message_approved for all key x content pairs and is_message_executed for all keys are compared with the model".into();
         (s, o)
     });
 }
